@@ -2322,9 +2322,13 @@ class Parameters:
         obj = self_.self
         init_methods = []
         for method, queued, on_init, constant, dynamic in type(obj).param._depends['watch']:
+            requeue = []
             # On initialization set up constant watchers; otherwise
-            # clean up previous dynamic watchers for the updated attribute
-            dynamic = [d for d in dynamic if attribute is None or d.spec.split(".")[0] == attribute]
+            # clean up the previous dynamic watchers of the methods with a
+            # dependency routed through the updated attribute. All dynamic
+            # watchers of such a method are removed, so all of them are set
+            # up again, also those routed through other attributes.
+            affected = [d for d in dynamic if attribute is None or d.spec.split(".")[0] == attribute]
             if init:
                 constant_grouped = defaultdict(list)
                 for dep in _resolve_mcs_deps(obj, constant, []):
@@ -2334,9 +2338,17 @@ class Parameters:
                 m = getattr(self_.self, method)
                 if on_init and m not in init_methods:
                     init_methods.append(m)
-            elif dynamic:
+            elif affected:
                 for w in obj._param__private.dynamic_watchers.pop(method, []):
-                    (w.cls if w.inst is None else w.inst).param.unwatch(w)
+                    wobj = w.cls if w.inst is None else w.inst
+                    wobj.param.unwatch(w)
+                    # A watcher waiting for the end of a batch hands its
+                    # place in the queue over to the watcher replacing it
+                    # below, so that the method still runs exactly once
+                    queued = wobj.param._state_watchers
+                    if any(w is q for q in queued):
+                        wobj.param._state_watchers = [q for q in queued if q is not w]
+                        requeue.append(wobj)
             else:
                 continue
 
@@ -2349,6 +2361,9 @@ class Parameters:
             for group in grouped.values():
                 watcher = self_._watch_group(obj, method, queued, group, attribute)
                 obj._param__private.dynamic_watchers[method].append(watcher)
+                wobj = watcher.cls if watcher.inst is None else watcher.inst
+                if any(wobj is o for o in requeue):
+                    wobj.param._state_watchers.append(watcher)
         for m in init_methods:
             m()
 
@@ -2423,7 +2438,7 @@ class Parameters:
             subparams, callback, what = {}, None, param_dep.what
             for ddep, pdep in group:
                 dsubparams, dcallback, dwhat = self_._resolve_dynamic_deps(
-                    obj, ddep, pdep, attribute)
+                    obj, ddep, pdep, ddep.spec.split(".")[0])
                 callback = callback or dcallback
                 if dsubparams is None:
                     subparams[pdep.name] = None
